@@ -14,7 +14,8 @@ RULE = ("Each case has 1-2 real sender PeerMemoers (signed and/or unsigned codes
         "grams of 1-4 memos are mixed, in seeded order, with hostile datagrams built from them: single-byte mutations at any offset "
         "(head, neck, memo id, signer id, body, signature), truncation at any length, unknown codes (bAAZ ...), ack codes (bAAI/bAAJ), "
         "non-ASCII bytes in the code, non-base64 characters in the neck, gram numbers at or beyond the count, counts of zero, invalid "
-        "UTF-8 bodies, a gram re-signed by a different key under the same memo id, random bytes, 1-3 byte datagrams. Hostile copies "
+        "UTF-8 bodies, a gram re-signed by a different key under the same memo id, (for a signer whose transferable identifier has a rotated "
+        "key) a gram signed with the rotated-out key, random bytes, 1-3 byte datagrams. Hostile copies "
         "may arrive before or after the genuine gram. Oracle: serviceAllRx never raises; every delivered (text, signer id) of an "
         "authic receiver equals one sent exactly; genuine memos whose grams were all delivered in zeroth-first order without "
         "interference still arrive. Non-trivial: >= 3 hostile datagrams of >= 2 kinds were delivered between genuine grams of a "
